@@ -308,7 +308,7 @@ def judge(res: Result, item: dict, doc: dict, expect: dict, cfg: dict, case: Any
         if part is not None:
             strings.extend(common.all_strings(dict(part) if hasattr(part, "items") else part))
     for s in strings:
-        if not cfg["allow_x00"] and ("\x00" in s or "%00" in s):
+        if not cfg["allow_x00"] and "\x00" in s:  # the literal text "%00" is three ordinary characters, not a NUL
             res.violation({**base, "kind": "nul_character_with_allow_x00_false"}, detail)
             break
     if cfg["codec"]:
